@@ -196,6 +196,10 @@ func init() {
 			// a macro whose expansion carries a list it built with metadata on it
 			{"(defmacro mt (fn [a] (list (quote quote) (with-meta (list a 2) {:tag a}))))", "(def v (mt 1))", "(list v (meta v) (meta (mt 3)))", "(defmacro mw (fn [a] (list (quote first) (list (quote quote) (list (with-meta (list a) {:unit \"m\"}))))))", "(meta (mw 5))"},
 			{"(def k 1)", "(defmacro mq (fn [v] (list (quote +) v k)))", "(def f (fn [v] (mq v)))", "(def x (f 1))", "(def k 10)", "(def y (f 1))", "(list x y)"},
+			// functions and macros as operands of = (whatever the answer is, it is the same on every route: a
+			// fn form has a source position on some routes and none on others)
+			{"(def keep (fn [x] x))", "(def bump (fn [x] (+ x 1)))", "(defmacro m1 (fn [a] a))", "(defmacro m2 (fn [a] (list (quote do) a)))",
+				"(def cmp (fn [a b] (try (= a b) (catch e :err))))", "(list (cmp keep bump) (cmp keep keep) (cmp [keep] [bump]) (cmp (fn [] 1) (fn [] 2)) (cmp m1 m2) (cmp {:k keep} {:k bump}) (t! (cmp bump keep)))"},
 		}
 		nFixed := int64(len(fixedProgs))
 		size := func() int64 {
@@ -233,7 +237,7 @@ func init() {
 		}
 		fam := &vf.Family{
 			Name:   "programs-x-layouts-x-routes",
-			Bounds: fmt.Sprintf("programs: every sequence of 2 top-level forms, each a core-form program of weight <=2 (thorough: also every sequence of 3 weight-1 forms) (C01 grammar + throw, (t! x), a string, a string containing TAB and CR, a map literal), and every template macro (C12 code grammar, weight <=2, thorough <=3; the expander logs an effect) defined in one top-level form and called in two further ones over every pair of 7 operands, and 9 fixed programs (a macro whose expansion carries a list with metadata; the expansion of one call site changes between two evaluations: expander reading a global / an atom, macro redefined; what a handler receives for an argument that failed in a special form, a builtin or a lookup); %d layouts (single line, form per line, comments between all tokens, blank lines, CRLF, no final newline, trailing comment without newline, tabs + leading comment); routes: READ with module, READ with nil cursor, cursor-free AST built from Go, READ(PRINT(ast)), forms one by one through REPL (named cursor / nil cursor), one wrapping do, load-file from a file", len(c19Layouts)),
+			Bounds: fmt.Sprintf("programs: every sequence of 2 top-level forms, each a core-form program of weight <=2 (thorough: also every sequence of 3 weight-1 forms) (C01 grammar + throw, (t! x), a string, a string containing TAB and CR, a map literal), and every template macro (C12 code grammar, weight <=2, thorough <=3; the expander logs an effect) defined in one top-level form and called in two further ones over every pair of 7 operands, and 10 fixed programs (functions and macros compared with =; a macro whose expansion carries a list with metadata; the expansion of one call site changes between two evaluations: expander reading a global / an atom, macro redefined; what a handler receives for an argument that failed in a special form, a builtin or a lookup); %d layouts (single line, form per line, comments between all tokens, blank lines, CRLF, no final newline, trailing comment without newline, tabs + leading comment); routes: READ with module, READ with nil cursor, cursor-free AST built from Go, READ(PRINT(ast)), forms one by one through REPL (named cursor / nil cursor), one wrapping do, load-file from a file", len(c19Layouts)),
 			Setup:  setup,
 			N:      func(t string) int64 { tier = t; return size() },
 			Describe: func(i int64) string {
